@@ -110,19 +110,17 @@ pub mod ha1 {
       relation r3(i64, i64);
       relation r4(i64, i64);
       relation r5(i64, i64);
-      relation r6(i64, i64);
-      relation r7(i64);
+      relation r6(i64);
+      relation r7(i64, i64);
       relation r8(i64, i64);
       relation r9(i64);
-      relation r10(i64);
       r2(v0, v1) <-- r5(v0, v1) if ((*v0) < 4), r5(v1, v2) if ((*v2) != (*v1));
       r2(2, v0) <-- if let Some(v0) = Some(1);
       r2(2, 3);
-      r6(v0, v21) <-- r3(v0, v1), agg v21 = sum(v20) in r0(v20);
-      r7(v0) <-- r0(v0), agg v21 = sum(v20) in r3(0, v20);
-      r8(v1, (v21 as i64)) <-- r1(v0, v1), agg v21 = count() in r4(_, (*v1));
-      r9(v0) <-- r2(v0, v1), agg v21 = sum(v20) in r1(v20, _);
-      r10(v0) <-- r2(v0, v1), agg v21 = max(v20) in r8(v20, 2);
+      r6(v0) <-- r3(v0, v1), agg v21 = sum(v20) in r0(v20);
+      r7(v1, v21) <-- r1(v0, v1), agg v21 = sum(v20) in r2(3, v20);
+      r8(v0, v21) <-- r3(v0, v1), agg v21 = sum(v20) in r3(v20, (*v0));
+      r9(v0) <-- r4(v0, v1), agg v21 = max(v20) in r3(v20, (*v1));
    }
    pub struct Inst { p: Prog, pool: Option<ascent::rayon::ThreadPool> }
    pub fn make(pool: Option<usize>) -> Box<dyn Driver> {
@@ -139,11 +137,10 @@ pub mod ha1 {
          3 => { let v: Vec<(i64,i64,)> = parse_rows(rows)?; if append { self.p.r3.extend(v) } else { self.p.r3 = v } },
          4 => { let v: Vec<(i64,i64,)> = parse_rows(rows)?; if append { self.p.r4.extend(v) } else { self.p.r4 = v } },
          5 => { let v: Vec<(i64,i64,)> = parse_rows(rows)?; if append { self.p.r5.extend(v) } else { self.p.r5 = v } },
-         6 => { let v: Vec<(i64,i64,)> = parse_rows(rows)?; if append { self.p.r6.extend(v) } else { self.p.r6 = v } },
-         7 => { let v: Vec<(i64,)> = parse_rows(rows)?; if append { self.p.r7.extend(v) } else { self.p.r7 = v } },
+         6 => { let v: Vec<(i64,)> = parse_rows(rows)?; if append { self.p.r6.extend(v) } else { self.p.r6 = v } },
+         7 => { let v: Vec<(i64,i64,)> = parse_rows(rows)?; if append { self.p.r7.extend(v) } else { self.p.r7 = v } },
          8 => { let v: Vec<(i64,i64,)> = parse_rows(rows)?; if append { self.p.r8.extend(v) } else { self.p.r8 = v } },
          9 => { let v: Vec<(i64,)> = parse_rows(rows)?; if append { self.p.r9.extend(v) } else { self.p.r9 = v } },
-         10 => { let v: Vec<(i64,)> = parse_rows(rows)?; if append { self.p.r10.extend(v) } else { self.p.r10 = v } },
             _ => return None,
          }
          Some(())
@@ -151,7 +148,7 @@ pub mod ha1 {
       fn run(&mut self) { match &self.pool { Some(pl) => { let p = &mut self.p; pl.install(|| p.run()) }, None => self.p.run() } }
       fn run_here(&mut self) { self.p.run() }
       fn run_timeout(&mut self, k: usize) -> Option<bool> { let _ = k; None }
-      fn dump(&self) -> String { vec![dump_rel(0, self.p.r0.iter().map(Row::render).collect()), dump_rel(1, self.p.r1.iter().map(Row::render).collect()), dump_rel(2, self.p.r2.iter().map(Row::render).collect()), dump_rel(3, self.p.r3.iter().map(Row::render).collect()), dump_rel(4, self.p.r4.iter().map(Row::render).collect()), dump_rel(5, self.p.r5.iter().map(Row::render).collect()), dump_rel(6, self.p.r6.iter().map(Row::render).collect()), dump_rel(7, self.p.r7.iter().map(Row::render).collect()), dump_rel(8, self.p.r8.iter().map(Row::render).collect()), dump_rel(9, self.p.r9.iter().map(Row::render).collect()), dump_rel(10, self.p.r10.iter().map(Row::render).collect())].join(" | ") }
+      fn dump(&self) -> String { vec![dump_rel(0, self.p.r0.iter().map(Row::render).collect()), dump_rel(1, self.p.r1.iter().map(Row::render).collect()), dump_rel(2, self.p.r2.iter().map(Row::render).collect()), dump_rel(3, self.p.r3.iter().map(Row::render).collect()), dump_rel(4, self.p.r4.iter().map(Row::render).collect()), dump_rel(5, self.p.r5.iter().map(Row::render).collect()), dump_rel(6, self.p.r6.iter().map(Row::render).collect()), dump_rel(7, self.p.r7.iter().map(Row::render).collect()), dump_rel(8, self.p.r8.iter().map(Row::render).collect()), dump_rel(9, self.p.r9.iter().map(Row::render).collect())].join(" | ") }
       fn iters(&self) -> String { format!("iters {}", self.p.scc_iters.iter().map(|x| x.to_string()).collect::<Vec<_>>().join(" ")) }
    }
 }
